@@ -119,7 +119,7 @@ class SubmitExecutor:
         self.ctrl = Controller(order)
         self.closed = False
 
-    def submit(self, fn, *args, **kw):
+    def submit(self, fn, /, *args, **kw):
         if self.closed:
             raise RuntimeError("cannot schedule new futures after shutdown")
         return self.ctrl.add(LazyFuture(self.ctrl), fn, args, kw)
@@ -136,7 +136,7 @@ class AsyncExecutor:
     def __init__(self, order):
         self.ctrl = Controller(order)
 
-    def apply_async(self, fn, *args, **kw):
+    def apply_async(self, fn, /, *args, **kw):
         return self.ctrl.add(LazyAsync(self.ctrl), fn, args, kw)
 
 
@@ -296,6 +296,12 @@ def cases(tier, seed):
         for st in ("seq", "shuffle"):
             yield {"special": "pairname", "name": name_, "values": vals_,
                    "strat": st}
+    # arguments named like the helpers' own parameters (every strategy hands
+    # the settings on as keywords: the function's names are its own)
+    for names in (["fn", "executor"], ["args", "kwds"], ["self", "settings"],
+                  ["func", "future"], ["kws", "fn"]):
+        for st in ("seq", "shuffle", "submit", "async", "fakepool", "threads"):
+            yield {"special": "optname", "names": names, "strat": st}
     # the swept function raises StopIteration for one combination: it reaches
     # the caller, the sweep does not end as if it were complete
     for n in (3, 4):
@@ -420,6 +426,38 @@ def check_special(case):
             return fin_special(case, [(key + "wrong", "combos=(%r, %r): %d "
                                        "calls, result %r" % (
                                            nm, vals, len(log.calls), got))])
+        return fin_special(case, [])
+    if case["special"] == "optname":
+        names = case["names"]
+        f = xfn.make_fn(names, kind="tstr", name="f01")
+        combos = {names[0]: [3, 1], names[1]: ["u", "v", "w"]}
+        pool = None
+        if st in ("submit", "async", "fakepool"):
+            kw["executor"] = {"submit": SubmitExecutor, "async": AsyncExecutor,
+                              "fakepool": FakePool}[st]([4, 0, 5, 2, 1, 3])
+        elif st == "threads":
+            import concurrent.futures
+
+            pool = kw["executor"] = concurrent.futures.ThreadPoolExecutor(2)
+        key = "C01|%s|argument-names|" % st
+        try:
+            with xfn.CallLog() as log:
+                try:
+                    got = xyz.combo_runner(f, combos, **kw)
+                except Exception as e:
+                    return fin_special(case, [(
+                        key + "raised:" + type(e).__name__,
+                        "a function of (%s): %r" % (", ".join(names), e))])
+        finally:
+            if pool is not None:
+                pool.shutdown()
+        want = tuple(tuple(xfn.expected("tstr", {names[0]: a, names[1]: b})
+                           for b in ["u", "v", "w"]) for a in [3, 1])
+        if not cmp.leaf_equal(got, want) or len(log.calls) != 6:
+            return fin_special(case, [(key + "wrong", "a function of (%s): %d "
+                                       "calls, result %r" % (
+                                           ", ".join(names), len(log.calls),
+                                           got))])
         return fin_special(case, [])
     if case["special"] == "twin":
         vals = case["values"]
